@@ -72,6 +72,39 @@ def unfold_inlined_temp(fn: ast.FunctionDef, name: str, value_src: str) -> None:
     fn.body.insert(i, assign)
 
 
+def processor_failure_path() -> str:
+    """queue/processor/processor.py: wherever `self._handle_message(message)` is called, `self.queue.ack(message)` follows
+    in the same `try`, and EVERY exception handler of that `try` reschedules the message and acks nothing - a handler that
+    raises (a lost optimistic-lock race re-raised on purpose, a crash of the handler) is always delivered again.  The
+    harnesses deliver through `_handle_message` themselves and mirror exactly this policy (driver.deliver, c04.real_run),
+    so the policy is read off the source here.  Returns the Coq definition recording it; refuses otherwise."""
+    rel = "queue/processor/processor.py"
+    mod = _parse(rel)
+    sites = 0
+    for t in ast.walk(mod):
+        if not isinstance(t, ast.Try):
+            continue
+        body_src = [ast.unparse(x) for x in t.body]
+        if "self._handle_message(message)" not in body_src:
+            continue
+        sites += 1
+        i = body_src.index("self._handle_message(message)")
+        if i + 1 >= len(body_src) or body_src[i + 1] != "self.queue.ack(message)":
+            _fail(rel, t, "the ack does not directly follow _handle_message(message)")
+        if not t.handlers:
+            _fail(rel, t, "no exception handler around _handle_message")
+        for h in t.handlers:
+            hs = ast.unparse(ast.Module(body=h.body, type_ignores=[]))
+            if "self.queue.ack(" in hs or ".ack(message)" in hs:
+                _fail(rel, h, f"handler `except {ast.unparse(h.type) if h.type else ''}` acknowledges a message whose handling raised")
+            if "self.queue.reschedule(message" not in hs:
+                _fail(rel, h, f"handler `except {ast.unparse(h.type) if h.type else ''}` does not reschedule the message")
+    if sites < 2:
+        _fail(rel, mod, f"expected the two delivery sites (pool thread and process_one), found {sites}")
+    return ("(* queue/processor/processor.py: every exception of a handler reschedules the message; ack only after success *)\n"
+            "Definition processor_redelivers_on_any_exception : bool := true.\n")
+
+
 def _enum_members(cls: ast.ClassDef, rel: str) -> list[tuple[str, ast.expr]]:
     out = []
     for n in cls.body:
